@@ -433,6 +433,44 @@ func checkC14(c *Ctx, r *Report) {
 		lockLeakRule(c, r, li, "R14.6", name)
 	}
 	r.floor("R14.6", 4)
+	// R14.9: each caller gets the reply to its own request only if the read loop consumes exactly one
+	// reply per request: ExpectedResponseLength of every request type equals the length of the reply
+	// the specification prescribes (C07 R7.1). One byte too few leaves a byte in the stream that the
+	// next caller reads as the start of its reply; the deviations pinned by the test suite are the
+	// same known findings as under C07.
+	{
+		crc := c.fnMust("packet", "CRC16")
+		reqs := requestTypes(c, "packet")
+		tmp := newReport(r.Prop, r.Tier)
+		n := 0
+		for _, m := range bytesMethods(c, "packet") {
+			tn := m.Signature.Recv().Type().(*types.Named)
+			if !reqs[tn] {
+				continue
+			}
+			tcp := hasMBAP(tn)
+			if !tcp && !callsDirect(m, crc) {
+				continue
+			}
+			n++
+			c07Expected(c, tmp, tn, tcp, false)
+		}
+		for _, it := range tmp.items {
+			if it.Rule != "R7.1" {
+				continue
+			}
+			it.Rule = "R14.9"
+			if !it.OK && strings.Contains(it.Detail, "never-short") {
+				// too long an expectation makes that caller time out (C07), but every byte of its reply
+				// has been consumed: the next caller's stream is not shifted
+				it.OK, it.Info = true, true
+				it.What = "observation: " + it.What + " (expects too many bytes: this caller times out, later callers are unaffected)"
+			}
+			r.add(it)
+		}
+		r.instance("R14.9", n)
+		r.floor("R14.9", 20)
+	}
 	// R14.8: the client's mutex protects the client's own fields only; package-level state written
 	// from any of its methods would be shared by all goroutines and all clients without that lock
 	{
